@@ -135,6 +135,21 @@ CHECKS = {
         technique="typestate abstract interpretation + path-sensitive reaching definitions at the attach sites",
         design="4/C13",
     ),
+    "C14": dict(
+        category="other",
+        text="Q1 must-dataflow over the CFGs of both printers: every read of .type/.path/.value on an item of the event "
+             "stream is dominated by isinstance(_, MarshalEvent) (or guarded at every call site of the helper); Q2 typestate "
+             "HELD/DISPOSED of every event pulled by the list folder and the main loop: disposed exactly once on every path "
+             "(printed, folded into the single byte row, or handed back), never overwritten while held, list parent shown iff "
+             "no element rows; Q3 from L (exhaustive, 44 byte-list fields): every 1-byte list element type is BYTE and every "
+             "byte-list parent directly follows its count/size primitive or the union container, so the event handed back by "
+             "the folder never needs folding; Q4 row shape: indentation len(path)-1, value text form, hex column = binary "
+             "re-encoding of that event, attribute rows only from the main loop with path+PathNode(attr). The rendered text "
+             "is not decided.",
+        note="trusted: CPython ast; L (E1); C02-B2 for the hex column's content.",
+        technique="must-dataflow (guard dominance) + typestate over the printer CFGs + FOLLOW-set facts from the static layout model",
+        design="4/C14",
+    ),
     "C16": dict(
         category="other",
         text="O1 operator table: each of the 26 binary/reflected, 6 comparison, divmod pair, __int__/__index__/__hash__ "
